@@ -41,6 +41,7 @@ type Action struct {
 	Dup        int           // extra duplicate replies
 	Body       interface{}   // reply body (nil = default success body)
 	Close      bool          // close the session instead of answering
+	Sync       bool          // deliver the reply before WritePkg returns (the reader overtakes the writer)
 }
 
 type Coord struct {
@@ -53,6 +54,8 @@ type Coord struct {
 	// Script decides the reply for a request; nil = default success behaviour.
 	Script func(s *FakeSession, kind string, m message.RpcMessage) Action
 	Addr   string
+	// branch ids handed out, by the message id of the BranchRegisterRequest they answered
+	branchIDs map[int32]int64
 }
 
 var globalStamp int64
@@ -330,7 +333,19 @@ func (s *FakeSession) WritePkg(pkg interface{}, timeout time.Duration) (int, int
 	if body == nil {
 		return len(bs), len(bs), nil
 	}
+	if br, ok := body.(message.BranchRegisterResponse); ok && br.ResultCode == message.ResultCodeSuccess {
+		c.mu.Lock()
+		if c.branchIDs == nil {
+			c.branchIDs = map[int32]int64{}
+		}
+		c.branchIDs[m.ID] = br.BranchId
+		c.mu.Unlock()
+	}
 	reply := message.RpcMessage{ID: m.ID, Type: message.GettyRequestTypeResponse, Codec: byte(codec.CodecTypeSeata), Body: body}
+	if act.Sync {
+		s.Push(reply)
+		return len(bs), len(bs), nil
+	}
 	for i := 0; i <= act.Dup; i++ {
 		go func() {
 			if act.Delay > 0 {
